@@ -125,6 +125,7 @@ type rewriter struct {
 
 	// race mode
 	ptrRecv bool
+	inReg   map[*ast.CallExpr]bool
 	selectBlocks map[*ast.BlockStmt]bool
 	accW    map[ast.Expr]bool // expression is written (assignment target, inc/dec)
 	skipAcc map[ast.Expr]bool // address taken / struct-valued inner selector: not an access
@@ -314,6 +315,7 @@ func (r *rewriter) run() bool {
 	info := r.pkg.TypesInfo
 	r.accW = map[ast.Expr]bool{}
 	r.skipAcc = map[ast.Expr]bool{}
+	r.inReg = map[*ast.CallExpr]bool{}
 	r.recvCalls = map[*ast.CallExpr]ast.Expr{}
 	r.sendCalls = map[*ast.CallExpr][2]ast.Expr{}
 	r.argType = map[*ast.CallExpr]types.Type{}
@@ -437,6 +439,20 @@ func (r *rewriter) run() bool {
 									size = n.Args[1]
 								}
 								c.Replace(call(&ast.IndexExpr{X: r.vmc("NewChan"), Index: ix.Index}, size))
+							}
+						}
+					}
+				case "new":
+					// new(T) of a struct type declared in the package: register like &T{}
+					if r.full && len(n.Args) == 1 {
+						if pt, ok := info.TypeOf(n).(*types.Pointer); ok {
+							if named, ok := pt.Elem().(*types.Named); ok && named.Obj().Pkg() == r.pkg.Types {
+								if _, isStruct := named.Underlying().(*types.Struct); isStruct && !r.inReg[n] {
+									wrapped := call(r.vmc("Reg"), n)
+									r.inReg[wrapped] = true
+									c.Replace(wrapped)
+									r.changed = true
+								}
 							}
 						}
 					}
@@ -599,6 +615,13 @@ func (r *rewriter) rewriteSelect(s *ast.SelectStmt) ast.Stmt {
 	hd := "false"
 	if hasDefault {
 		hd = "true"
+	} else {
+		// vmc.Select only returns the index of one of the cases: the default clause is
+		// unreachable, but it keeps the switch a terminating statement when every case of the
+		// select returns (a select whose cases all return needs no return after it)
+		sw.Body.List = append(sw.Body.List, &ast.CaseClause{Body: []ast.Stmt{
+			&ast.ExprStmt{X: call(ast.NewIdent("panic"), &ast.BasicLit{Kind: token.STRING, Value: strconv.Quote("vmc: select returned no case")})},
+		}})
 	}
 	sw.Tag = call(r.vmc("Select"), append([]ast.Expr{ast.NewIdent(hd)}, caseArgs...)...)
 	blk.List = append(blk.List, sw)
